@@ -68,6 +68,12 @@ Rebuild ==
     /\ ev' = [op |-> "Rebuild", out |-> Outcome(r)]
 
 \* key files a save or load opens: those of configurations that hold a non-empty secret
+\* a list value (at any nesting of lists) of a list field whose leaves are secrets holds a non-empty one
+RECURSIVE HoldsSecret(_, _)
+HoldsSecret(f, v) ==
+    IF f.kind = "secure" THEN Truthy(v)
+    ELSE IF f.kind = "list" /\ v.t = "list" THEN \E j \in DOMAIN v.l : HoldsSecret(f.item, v.l[j])
+    ELSE FALSE
 RECURSIVE KeysUsed(_, _)
 KeysUsed(Sx, c) ==
     UNION {LET k == Sx.fields[i][1]  f == Sx.fields[i][2] IN
@@ -77,7 +83,7 @@ KeysUsed(Sx, c) ==
                 ELSE IF f.kind = "secure" THEN (IF Truthy(v) THEN {NKey(Sx)} ELSE {})
                 ELSE IF f.kind = "list" /\ v.t = "list" THEN
                     (IF IsSchema(f.item) THEN UNION {KeysUsed(f.item, v.l[j]) : j \in DOMAIN v.l}
-                     ELSE IF f.item.kind = "secure" /\ \E j \in DOMAIN v.l : Truthy(v.l[j]) THEN {NKey(Sx)} ELSE {})
+                     ELSE IF HoldsSecret(f, v) THEN {NKey(Sx)} ELSE {})
                 ELSE {} : i \in DOMAIN Sx.fields}
 
 RoundTrip(fmt) ==
